@@ -62,6 +62,13 @@ def _case_worker(args):
         try:
             if "files" in c:
                 files, pp, F = c["files"], c["pyproject"], c["F"]
+            elif "pair" in c:
+                # a project of several files: independent programs of the model, one file each, one approved set
+                files = {}
+                for k, r in enumerate(c["pair"]):
+                    rng, beta = core_replay.prepare(r, seed + k)
+                    files["test_%s.py" % "abc"[k]] = render_core.render(r["ops"], r["srcs"], r["prog"], beta, bool(r["exp"].get("imp")), rng)
+                pp, F = None, [core_replay.CATS[x] for x in c["pair"][0]["exp"]["F"]]
             else:
                 rng, beta = core_replay.prepare(c, seed)
                 text = render_core.render(c["ops"], c["srcs"], c["prog"], beta, bool(c["exp"].get("imp")), rng)
@@ -100,6 +107,24 @@ def run():
             tlc.cleanup(res)
         n = (90 if cfg == "A" else 50) if chk.quick else (2000 if cfg == "A" else 800)
         cases += [dict(r, id=cfg + r["id"]) for r in runs[:: max(1, len(runs) // n)][:n]]
+        if cfg == "A":
+            pool_a = [dict(r, id=cfg + r["id"]) for r in runs]
+    # multi-file projects: two or three programs whose pending categories differ, approved together
+    byF = {}
+    for r in pool_a:
+        if len(r["exp"]["F"]) >= 2 and any(r["exp"]["pending"]):
+            byF.setdefault(tuple(r["exp"]["F"]), []).append(r)
+    prng = random.Random(chk.seed + 19)
+    npairs = 0
+    for F, rs in sorted(byF.items()):
+        prng.shuffle(rs)
+        while len(rs) >= 2 and npairs < (60 if chk.quick else 1500):
+            k = 3 if len(rs) >= 3 and prng.random() < 0.3 else 2
+            grp, rs = rs[:k], rs[k:]
+            if len({tuple(tuple(p) for p in g["exp"]["pending"]) for g in grp}) < 2:
+                continue                    # the files should differ in what is pending
+            cases.append({"id": "pair:" + "|".join(g["id"] for g in grp), "pair": grp})
+            npairs += 1
     rng = random.Random(chk.seed)
     allF = [[], ["create"], ["fix"], ["create", "fix"], ["update"], ["trim"], ["create", "fix", "trim", "update"]]
     for name, files, pp in SPECIALS:
@@ -125,12 +150,13 @@ def run():
                 chk.sample({"project": r["id"], "approved": r["F"], "per_driver": r["summary"]})
             for m in r["mism"]:
                 chk.mismatch(m["clause"], {"clause": m["clause"], "driver": m["detail"].get("driver"), "special": c.get("special")},
-                             {"kind": "drivers", "case": {k: v for k, v in c.items() if k != "exp"}, "F": r["F"], "files": r["files"], "mismatch": m,
+                             {"kind": "drivers", "case": {k: v for k, v in c.items() if k not in ("exp", "pair")}, "F": r["F"], "files": r["files"], "mismatch": m,
                               "summary": r["summary"]}, props=m["props"])
     if errors:
         raise MachineryError("%d driver jobs crashed" % errors)
     chk.assumptions += ["projects without externals: the programs of the per-site model (incl. raising / failing tests) "
-                        "plus hand-written projects with HasRepr values, several files and [tool.black] options",
+                        "plus hand-written projects with HasRepr values, several files and [tool.black] options, and projects of two "
+                        "or three generated files whose pending categories differ",
                         "the real session and run_pytest are given `report` in addition, so that every pending category is "
                         "shown; categories are read from the section titles of the report"]
     return chk.finish(
